@@ -104,7 +104,10 @@ func scC05(r *Run) {
 }
 
 func init() {
-	register(&PropDef{ID: "C04", Quick: 1500, Thorough: 60000, Profiles: []ProfileDef{{Name: "seq", Share: 1, Sc: scC04}}})
+	register(&PropDef{ID: "C04", Quick: 1800, Thorough: 72000, Profiles: []ProfileDef{
+		{Name: "seq", Share: 5, Sc: scC04},
+		{Name: "cross-burst", Share: 1, Sc: scC04CrossBurst},
+	}})
 	register(&PropDef{ID: "C05", Quick: 2400, Thorough: 60000, Profiles: []ProfileDef{
 		{Name: "seq", Share: 5, Sc: scC05},
 		{Name: "held", Share: 1, Sc: scC05Held},
